@@ -134,6 +134,12 @@ BTree_check_inner(BTree *self, Bucket *nextbucket)
             child = self->data[i].child;
             CHECK(SameType_Check(self, child),
                     "BTree children have different types");
+            UNLESS (PER_USE(child))
+                goto Done;
+            activated_child = child;
+            CHECK(child->len >= 1, "BTree child length < 1"); /* no empty nodes! */
+            PER_ALLOW_DEACTIVATION(child);
+            activated_child = NULL;
             if (i == self->len - 1)
                 bucketafter = nextbucket;
             else
